@@ -300,6 +300,12 @@ class Stats:
         self.post_reset_probes = 0
 
 
+# after a disagreement the model's tables are normally overwritten with the real ones, so that one defect is reported once and
+# the walk goes on in step.  The C02 check keeps the model's (proved) tables instead: a wrong firewall / data table then shows
+# in what it wrongly lets later actions do, which is what C02 is about.
+SYNC_ON_DIFF = True
+
+
 class WorldSession:
     """One real world + the model world kept in lock-step."""
 
@@ -360,7 +366,7 @@ class WorldSession:
             if real_w != C.canon_worlddyn({"data": world_before["data"], "fw": world_before["fw"], "blocks": world_before["blocks"]}):
                 rec["agree"] = False
                 rec["diff"].append("world-changed-by-raising-step")
-            if not rec["agree"]:
+            if not rec["agree"] and SYNC_ON_DIFF:
                 self.sync()
             rec["new"] = new
             return rec
@@ -380,7 +386,8 @@ class WorldSession:
             rec["diff"] = d
             rec["real_world"] = C.worlddyn2j(self.w)
             rec["model_world"] = m["world"]
-            self.sync()
+            if SYNC_ON_DIFF:
+                self.sync()
             # evaluate the invariants on the REAL result
             rec["inv_after"] = self.drv.ask({"op": "inv", "view": C.view2j(new)})["inv"]
             rec["le"] = self.drv.ask({"op": "le", "a": vj, "b": C.view2j(new)})["le"]
